@@ -719,6 +719,9 @@ func (env *SpecEnv) callExpr(n *ast.CallExpr) Val {
 		return n.Args[i]
 	}
 	switch name {
+	case "cur":
+		// cur(x): the current value of x, said explicitly (see checkParamsUnchanged)
+		return env.eval(arg(0))
 	case "prev":
 		if env.prev == nil {
 			env.errf("prev(...) outside a loop step clause")
